@@ -30,6 +30,8 @@ HOSTILE = [
 HOSTILE += ["2", "3", "4", "\xb2", "\u2460", "\xb2\xb3", "\u0663", "1\xb2"]
 # regular expressions the compiler gives up on with something other than re.error
 HOSTILE += ["a{99999999999}", "a{1,4294967296}", "(" * 2000 + "a" + ")" * 2000]
+# an integer limit of more digits than Python converts to decimal text (4300 by default)
+HOSTILE += ["0...0x" + "f" * 4000, "-0x" + "f" * 4000 + "...0"]
 # a sound first token followed by something the tokenizer or the parser rejects right there
 HOSTILE += ["%s %s" % (head, tail) for head in ("Text", "5", '"a"') for tail in ("'abc", '"abc', "0b2", "\\", "1_", "0x", "$", "?", "(", "...")]
 FIELDS = {
@@ -381,14 +383,34 @@ def stream_case(case, part):
     leaks = []
     del OUTCOMES[:]
     cid = harness.make_cid(rows)
-    attempt("rows", lambda: list(cutplace.rows(cid, harness.NamedStringIO(text, "stream.txt"), on_error="yield")), errors, leaks)
-    attempt("validate", lambda: cutplace.validate(cid, harness.NamedStringIO(text, "stream.txt")), errors, leaks)
+
+    def stream(content):
+        if "unnamed" not in case:
+            return harness.NamedStringIO(content, "stream.txt")
+        # a stream whose name is no text: temporary files carry None, streams opened on a file descriptor its number
+        result = io.StringIO(content, newline="")
+        result.name = case["unnamed"]
+        return result
+
+    attempt("rows", lambda: list(cutplace.rows(cid, stream(text), on_error="yield")), errors, leaks)
+    attempt("validate", lambda: cutplace.validate(cid, stream(text)), errors, leaks)
+    if "unnamed" in case:
+        def write():
+            with cutplace.Writer(cid, stream("")) as writer:
+                for row in DATA + [DATA[0][:-1]]:
+                    try:
+                        writer.write_row([row[i] for i in order if i < len(row)])
+                    except errors.DataError:
+                        pass
+
+        attempt("Writer", write, errors, leaks)
+        part.transitions += 1
     part.transitions += 2
     part.validated += 1
     part.state((fmt, "stream", tuple(OUTCOMES)))
     part.outcome("leak" if leaks else "clean")
     for where, exception in leaks:
-        part.fail("%s|stream:%s%s:%s|%s|%s|%s" % (fmt, "flag-first" if case["flag_first"] else "flag-last", ":quoted" if case.get("quoted") else "", {"\n": "lf", "\r": "cr", "\r\n": "crlf"}.get(ending, ending), where, exception,
+        part.fail("%s|stream:%s%s%s:%s|%s|%s|%s" % (fmt, "flag-first" if case["flag_first"] else "flag-last", ":quoted" if case.get("quoted") else "", ":name=%r" % (case["unnamed"],) if "unnamed" in case else "", {"\n": "lf", "\r": "cr", "\r\n": "crlf"}.get(ending, ending), where, exception,
                                                 "intact" if not mutation else mutation[0]), case, "success, InterfaceError or DataError", [where, exception])
 
 
@@ -410,6 +432,14 @@ def stream_cases():
                     cases.append({"format": fmt, "flag_first": flag_first, "ending": ending, "mutation": ["delete", at]})
                     for character in ("x", "\r", "\n", '"'):
                         cases.append({"format": fmt, "flag_first": flag_first, "ending": ending, "mutation": ["replace", at, character]})
+    # streams whose name is None, a number or empty (temporary files, streams opened on a file descriptor)
+    for fmt in ("fixed", "delimited"):
+        for unnamed in (None, 0, 7, ""):
+            base = {"format": fmt, "flag_first": False, "ending": "\n", "unnamed": unnamed}
+            cases.append(dict(base))
+            for at in range(0, 130, 9):
+                cases.append(dict(base, mutation=["delete", at]))
+                cases.append(dict(base, mutation=["replace", at, '"']))
     # delimited data with every item quoted, one or three rows: damage inside the very first physical line
     for rows in (1, 3):
         for ending in ("\n", "\r\n", ""):
